@@ -227,7 +227,9 @@ func (in *inst) modelKey() string {
 }
 
 func (in *inst) Key() string {
-	return in.modelKey() + "\n" + in.rm.VerifDump(false)
+	// (the implementation's own record ages are part of the state: two histories that agree on the reference ages
+	// but not on what the implementation stored must not be merged)
+	return in.modelKey() + "\n" + in.rm.VerifDump(false) + "\n" + in.rm.VerifDumpAges(vsched.VNow())
 }
 
 func main() {
